@@ -13,6 +13,8 @@ import VModel.Spark
 import VModel.Generated.Typesets
 import VProofs.Props.C14
 import VProofs.Lemmas.Refine
+import VProofs.Obligations.PandasTypeset
+import VProofs.Props.C01
 namespace V.C17
 open V V.Gen
 
@@ -83,7 +85,7 @@ theorem C17_mutex (n : Ty) (dt : SparkTy) :
 /-- the cast result is the DataFrame itself: detection uses identity relations only, whose
 transformer is the identity, so the data component is unchanged -/
 theorem C17_identity (b : Built Ty) (dt : SparkTy) :
-    (ptraverse (sparkSucc b) b.nodes.length b.root dt).1 = dt := by
+    (ptraverse (sparkSucc b) 64 b.root dt).1 = dt := by
   suffices ∀ f n, (ptraverse (sparkSucc b) f n dt).1 = dt from this _ _
   intro f
   induction f with
@@ -98,5 +100,99 @@ theorem C17_identity (b : Built Ty) (dt : SparkTy) :
       simp only [sparkSucc, List.mem_map] at hmem
       obtain ⟨e, _, rfl⟩ := hmem
       exact ih e.dst
+
+/-! ### the general statement: EVERY parent-closed typeset -/
+
+/-- the Spark back end as a type system over identity relations -/
+def sparkTS (b : Built Ty) : TS Ty SparkTy :=
+  { succ := sparkSucc b, contains := sparkContains, h := fun t => 32 - rank t }
+
+theorem sparkTS_L0 (b : Built Ty) : (sparkTS b).L0 := by
+  intro n r hr _
+  simp only [sparkTS, sparkSucc, List.mem_map] at hr
+  obtain ⟨e, _, rfl⟩ := hr
+  exact ⟨fun _ => rfl, fun _ => rfl⟩
+
+theorem sparkTS_idSucc (b : Built Ty) : (sparkTS b).idSucc = sparkSucc b := by
+  funext n
+  simp only [TS.idSucc, pbase, sparkTS]
+  apply List.filter_eq_self.mpr
+  intro r hr
+  simp only [sparkSucc, List.mem_map] at hr
+  obtain ⟨e, _, rfl⟩ := hr
+  rfl
+
+theorem sparkTS_height (b : Built Ty) (hrank : ∀ e ∈ b.edges, rank e.src < rank e.dst) :
+    ∀ n r, r ∈ (sparkTS b).succ n → (sparkTS b).h r.dst < (sparkTS b).h n := by
+  intro n r hr
+  simp only [sparkTS, sparkSucc, List.mem_map, List.mem_filter, Built.baseEdges] at hr
+  obtain ⟨e, ⟨⟨he, _⟩, hs⟩, rfl⟩ := hr
+  have hsrc : e.src = n := by simpa using hs
+  have := hrank e he
+  have h1 := Pd.rank_le e.dst
+  show 32 - rank e.dst < 32 - rank n
+  rw [← hsrc]; omega
+
+theorem parentOf_decl {c t : Ty} (h : parentOf c = some t) : (⟨t, false⟩ : RelDecl Ty) ∈ declared c := by
+  simp only [parentOf, Option.map_eq_some_iff] at h
+  obtain ⟨r, hr, rfl⟩ := h
+  have hm := List.mem_of_find?_eq_some hr
+  have hp := List.find?_some hr
+  have : r.inferential = false := by simpa using hp
+  cases r with
+  | mk src inf => simp only at this; subst this; exact hm
+
+/-- **C17, for every typeset**: for EVERY duplicate-free parent-closed supply list `S` of the 22 types containing Generic (any
+order) and EVERY Spark data type, the type detected for a column of that data type (i) belongs to `S`, (ii) is the documented
+type or one of its identity ancestors, and (iii) no identity child of it within `S` is — i.e. it is the nearest ancestor of
+the documented type that the typeset includes.  (The quantifier over rows, nullability, column name and position is vacuous
+in the model: they are not arguments of `sparkContains`; the runner varies them on the real code.) -/
+theorem C17_general (S : List Ty) (nd : S.Nodup) (hg : Ty.Generic ∈ S) (pc : ParentClosedL declared S)
+    (hsub : ∀ t ∈ S, t ∈ completeSet) (dt : SparkTy) :
+    ∃ b, mkTypeset declared isGeneric S = .ok b ∧
+      let t := sparkDetectType b dt
+      t ∈ S ∧ t ∈ ancestors 24 (docType dt) ∧
+      (∀ c ∈ S, parentOf c = some t → c ∉ ancestors 24 (docType dt)) := by
+  obtain ⟨b, hb, hr, _, ft, _⟩ := Pd.built_typeset ⟨fun _ => .raises "x"⟩ S nd hg pc hsub
+  obtain ⟨b1, hb1, _, hr1, _, he, _⟩ := buildGraph_closed C14.tableWF S nd hg pc
+  have e1 : b = b1 := by
+    have : mkTypeset declared isGeneric S = .ok b1 := by simp only [mkTypeset, hb1, hr1]; rfl
+    rw [hb] at this; exact (Except.ok.inj this)
+  have hedges : b.edges = presentEdges declared S := by rw [e1]; exact he
+  refine ⟨b, hb, ?_⟩
+  have hroot : sparkContains b.root dt = true := by rw [hr]; cases dt <;> decide
+  have h := C01.C01_detect (sparkTS b) (sparkTS_L0 b) (sparkTS_height b ft.rank) b.root 64
+    (by show 32 - rank b.root < 64; omega) dt hroot
+  rw [sparkTS_idSucc] at h
+  obtain ⟨_, _, hall, _, hmost⟩ := h
+  -- the walk stays inside S
+  have hstep : ∀ n r, n ∈ S → r ∈ (sparkTS b).succ n → r.dst ∈ S := by
+    intro n r _ hr'
+    simp only [sparkTS, sparkSucc, List.mem_map, List.mem_filter, Built.baseEdges] at hr'
+    obtain ⟨e, ⟨⟨he', _⟩, _⟩, rfl⟩ := hr'
+    rw [hedges] at he'
+    exact (mem_presentEdges.mp he').1
+  have hrootS : b.root ∈ S := by rw [hr]; exact hg
+  have hlast : plast b.root (ptraverse (sparkSucc b) 64 b.root dt).2 ∈ S :=
+    plast_in_nodes (sparkTS b) (· ∈ S) hstep 64 b.root dt hrootS
+  have hdet : sparkDetectType b dt = plast b.root (ptraverse (sparkSucc b) 64 b.root dt).2 := rfl
+  rw [hdet]
+  refine ⟨hlast, ?_, ?_⟩
+  · have hc := hall _ (plast_mem b.root _ (ptraverse_path_ne_nil _ _ _ _))
+    exact (C17_table dt _ (hsub _ hlast)).mp hc
+  · intro c hcS hpar hanc
+    -- the identity edge answer -> c is in the typeset, so the walk would not have stopped
+    have hdecl := parentOf_decl hpar
+    have hedge : (⟨plast b.root (ptraverse (sparkSucc b) 64 b.root dt).2, c, false⟩ : Edge Ty) ∈ b.edges := by
+      rw [hedges]; exact mem_presentEdges.mpr ⟨hcS, hlast, hdecl⟩
+    have hrel : ({ src := plast b.root (ptraverse (sparkSucc b) 64 b.root dt).2, dst := c, inferential := false,
+                   guard := fun d => sparkContains c d, xform := id } : PRel Ty SparkTy) ∈
+        sparkSucc b (plast b.root (ptraverse (sparkSucc b) 64 b.root dt).2) := by
+      simp only [sparkSucc, List.mem_map, List.mem_filter, Built.baseEdges]
+      exact ⟨_, ⟨⟨hedge, rfl⟩, by simp⟩, rfl⟩
+    have := hmost _ hrel
+    have hc := (C17_table dt c (hsub c hcS)).mpr hanc
+    simp only [sparkTS] at this
+    rw [hc] at this; cases this
 
 end V.C17
